@@ -189,3 +189,43 @@ Proof.
   eexists. split; [vm_compute; reflexivity|]. split; [vm_compute; reflexivity|]. split; [reflexivity|]. split; [|reflexivity].
   constructor; vm_compute; try reflexivity; try discriminate.
 Qed.
+
+(* ... and the success premise of format_create_decodes is not vacuous: on a freshly formatted FAT12/16 volume whose root has
+   at least 22 entries (label + 20 long-name slots + 1 short slot: room for ANY accepted name) create_file succeeds for
+   every name validate_long_name accepts, under every valid clock value *)
+Theorem format_create_succeeds upper oem o ts im0 bs t im name now :
+  builder_range o -> ts < 4294967296 -> bytes_ok im0 ->
+  format_boot_sector_validated o ts = Ok (bs, t) -> t <> Format.Fat32 ->
+  (o_max_root_dir_entries o * 32) mod o_bytes_per_sector o = 0 -> 22 <= o_max_root_dir_entries o ->
+  format_image o ts im0 = Ok im ->
+  validate_long_name name = Ok tt -> TimeProofs.datetime_valid now = true ->
+  exists range im1, vol_create_empty_file_root upper oem im name now = (Ok (Some range), im1).
+Proof.
+  intros Hb Hts Hb0 Hv Ht Hfill Hroom Hf V Hnow.
+  destruct (image_decodes_empty o ts im0 bs t im (fun l => l) Hb Hts Hb0 Hv Hf) as (Hpg & _ & _ & Hroot & Hiss & _).
+  destruct (formatted_fixed_root_geom o ts bs t Hb Hts Hv Ht Hfill) as [Hg _].
+  destruct (image_root_dir o ts im0 bs t im Hb Hts Hb0 Hv Hf) as (Hbytes & _).
+  destruct (format_ok_valid o ts bs t Hb Hts Hv) as (_ & _ & _ & _ & _ & _ & _ & _ & _ & Hre & _).
+  assert (fb_root_entries (fbs_bpb bs) = o_max_root_dir_entries o) as Hre'.
+  { rewrite Hre. destruct t; try reflexivity. contradiction. }
+  set (b := fbs_bpb bs) in *. set (g := geom_of b) in *.
+  assert (fixed_root_geom (Abs.parse_geom im)) as Hg' by (rewrite Hpg; exact Hg).
+  apply (vol_create_succeeds upper oem im name now Hg' Hroot Hiss); try assumption; rewrite Hpg; fold g.
+  - intros k Hk. unfold Slot.byte_at. rewrite (root_region_slot_bytes g im k 0) by lia.
+    change (Abs.g_root_off g) with (fi_root_pos b).
+    assert (N.of_nat (32 * k + 0) < fi_root_len b t) as Hlt.
+    { unfold fi_root_len. assert (sp_is32 t = false) as -> by (destruct t; try reflexivity; contradiction).
+      pose proof (root_sectors_cover g ltac:(pose proof (fg_bps g Hg); lia)) as Hc.
+      unfold root_bytes, root_slot_count in *.
+      assert (Abs.g_root_sectors g = sp_root_dir_sectors b) as <-.
+      { unfold Abs.g_root_sectors, sp_root_dir_sectors. unfold g. cbn [geom_of Abs.g_root_entries Abs.g_bps].
+        pose proof (fg_bps g Hg) as Hbp. unfold g in Hbp. cbn [geom_of Abs.g_bps] in Hbp.
+        replace (fb_root_entries b * 32 + fb_bytes_per_sector b - 1) with (fb_root_entries b * 32 + (fb_bytes_per_sector b - 1)) by lia.
+        reflexivity. }
+      change (fb_bytes_per_sector b) with (Abs.g_bps g). lia. }
+    rewrite (Hbytes _ Hlt). rewrite Nat2N.id.
+    apply nth_overflow. unfold label_bytes. destruct (o_volume_label o) as [l|] eqn:El; [|cbn [length]; lia].
+    destruct Hb as (_ & _ & _ & _ & _ & _ & _ & _ & _ & _ & Hlab). destruct (Hlab l El) as [Hl11 _].
+    unfold sfn_encode. rewrite !app_length. cbn [label_entry Slot.se_name length Slot.u16_bytes Slot.u32_bytes]. lia.
+  - unfold g. cbn [geom_of Abs.g_root_entries]. fold b. rewrite Hre'. exact Hroom.
+Qed.
